@@ -97,6 +97,20 @@ func genC17(tier string, seed uint64, emit func(string)) {
 			}
 		}
 	}
+	// patterns on which a backtracking matcher takes exponentially many steps (many stars, each piece matching inside a
+	// repetitive key, a tail that does not): compiling and matching stays instantaneous (the per-case deadline turns a
+	// matcher that does not come back into a failure)
+	for _, n := range []int{8, 16, 24, 40} {
+		for _, kl := range []int{32, 64, 200} {
+			key := strings.Repeat("a", kl)
+			for _, pat := range []string{strings.Repeat("*a", n) + "*b", strings.Repeat("*a", n), strings.Repeat("*?", n) + "b", strings.Repeat("a*", n) + "c*", strings.Repeat("*", n) + "b", strings.Repeat("*a?", n/2) + "*b"} {
+				emit("glob " + hx([]byte(pat)) + " " + hx([]byte(key)) + " " + hx([]byte(key+"b")) + " " + hx([]byte("b"+key)))
+				if n == 24 && kl == 64 {
+					emit("keyscan " + hx([]byte(pat)) + " " + hx([]byte(key)) + " " + hx([]byte(key+"b")) + " 62")
+				}
+			}
+		}
+	}
 	// longer random patterns and keys over a wider ASCII alphabet (every regexp metacharacter)
 	wide := []byte("ab*?.+()|^${}[]\\-xyzEQdDwWsSbBAzZpPnrtfvx09 \t/:\n")
 	n := 3000
@@ -139,21 +153,31 @@ func genC17(tier string, seed uint64, emit func(string)) {
 
 // refGlob is the harness' own direct recursive glob matcher (the oracle).
 func refGlob(p, k []byte) bool {
-	if len(p) == 0 {
-		return len(k) == 0
-	}
-	switch p[0] {
-	case '*':
-		for i := 0; i <= len(k); i++ {
-			if refGlob(p[1:], k[i:]) {
-				return true
-			}
+	// the declarative semantics, decided by dynamic programming over (pattern position, key position): polynomial, so
+	// that patterns on which a backtracking matcher explodes have an answer here too
+	memo := make(map[[2]int]bool)
+	var rec func(i, j int) bool
+	rec = func(i, j int) bool {
+		if i == len(p) {
+			return j == len(k)
 		}
-		return false
-	case '?':
-		return len(k) > 0 && refGlob(p[1:], k[1:])
+		key := [2]int{i, j}
+		if v, ok := memo[key]; ok {
+			return v
+		}
+		var r bool
+		switch p[i] {
+		case '*':
+			r = rec(i+1, j) || (j < len(k) && rec(i, j+1))
+		case '?':
+			r = j < len(k) && rec(i+1, j+1)
+		default:
+			r = j < len(k) && k[j] == p[i] && rec(i+1, j+1)
+		}
+		memo[key] = r
+		return r
 	}
-	return len(k) > 0 && k[0] == p[0] && refGlob(p[1:], k[1:])
+	return rec(0, 0)
 }
 
 // runKeyScan: the bundled example store is populated with the keys; KEYS p and SCAN 0 MATCH p must select exactly
